@@ -351,6 +351,10 @@ func genSeqPlan(prop string, seed uint64, tier string) *Plan {
 		}
 	}
 	restarts := 0
+	earlyRestart := 0
+	if r.Bool(1, 2) {
+		earlyRestart = r.Range(1, 5)
+	}
 	weights := []int{w.set, w.del, w.incr, w.get, w.mget, w.meta, w.meta2, w.flush, w.tick, w.dump, w.advance, w.restart, w.gc, w.listing}
 	kinds := []string{"set", "del", "incr", "get", "mget", "meta", "meta2", "flush", "tick", "dump", "advance", "restart", "gc", "list"}
 	idBase := 0
@@ -359,6 +363,46 @@ func genSeqPlan(prop string, seed uint64, tier string) *Plan {
 			idBase++
 			p.Ops = append(p.Ops, Op{ID: idBase, Kind: "set", K: k, V: ValSpec{Class: VConst, Len: r.Range(8, 20), Seed: uint32(r.U64())}})
 		}
+	}
+	if (prop == "C03" || prop == "C18" || prop == "C07" || prop == "C13") && len(c.Served) > 0 && r.Bool(2, 5) {
+		// scenario template: short first file, overwrites/deletes of its keys in later files, a
+		// restart that rebuilds the tree (tombstones leave the index), a pass that does not start
+		// at file 0, a restart with rebuilt indexes, then the usual random tail
+		id := idBase
+		add := func(op Op) { id++; op.ID = id; p.Ops = append(p.Ops, op) }
+		small := func(k int) Op {
+			return Op{Kind: "set", K: k, V: ValSpec{Class: r.Pick(VConst, VText, VRandom), Len: r.Pick(8, 10, 40, 200, 230), Seed: uint32(r.U64())}}
+		}
+		nk := len(p.Keys)
+		for j := r.Range(1, 5); j > 0; j-- {
+			add(small(r.Intn(nk)))
+		}
+		add(Op{Kind: "restart", Del: []string{"tree"}, DelSeed: uint32(r.U64())})
+		for j := r.Range(2, 12); j > 0; j-- {
+			k := r.Intn(nk)
+			switch r.Intn(4) {
+			case 0:
+				add(Op{Kind: "del", K: k})
+			case 1:
+				o := small(k)
+				o.V.Len = int(c.BodyMax) - r.Intn(3)
+				add(o)
+			default:
+				add(small(k))
+			}
+		}
+		add(Op{Kind: "restart", Del: [][]string{{"tree"}, {"tree", "hint"}, {"tree", "merged"}, {}}[r.Intn(4)], DelSeed: uint32(r.U64())})
+		for j := r.Range(0, 4); j > 0; j-- {
+			add(small(r.Intn(nk)))
+		}
+		add(Op{Kind: "gc", GCBucket: c.Served[r.Intn(len(c.Served))], GCStart: r.Pick(1, 1, 1, 0, -1, 2), GCEnd: r.Pick(-1, -1, 1, 2, 5), GCDays: 0, Merge: r.Bool(1, 2)})
+		for j := r.Range(0, 3); j > 0; j-- {
+			add(small(r.Intn(nk)))
+		}
+		add(Op{Kind: "restart", Del: [][]string{{"tree", "hint"}, {"tree"}, {"tree", "hint", "merged"}, {"some"}}[r.Intn(4)], DelSeed: uint32(r.U64())})
+		idBase = id
+		restarts = 3
+		p.Extra["scenario"] = 1
 	}
 	for i := 0; i < nOps; i++ {
 		op := Op{ID: idBase + i + 1}
@@ -441,6 +485,15 @@ func genSeqPlan(prop string, seed uint64, tier string) *Plan {
 			}
 		case "list":
 			op.Delta = int64(r.U64() >> 1)
+		}
+		if (prop == "C03" || prop == "C18" || prop == "C07" || prop == "C17") && earlyRestart > 0 && i == earlyRestart && op.Kind != "restart" {
+			// an early restart leaves a short first data file behind: later passes that start above it
+			// append to that earlier non-full file instead of rewriting in place
+			p.Ops = append(p.Ops, Op{ID: 100000 + i, Kind: "restart", Del: []string{"tree"}, DelSeed: uint32(r.U64())})
+			restarts++
+		}
+		if op.Kind == "gc" && (prop == "C03" || prop == "C18" || prop == "C07") && earlyRestart > 0 && r.Bool(1, 2) {
+			op.GCStart = r.Pick(1, 1, 2)
 		}
 		if op.Kind == "set" && op.Rev != 0 {
 			for _, grp := range p.Groups {
